@@ -177,9 +177,21 @@ def enc_opsets(imports) -> list[str]:
     return out
 
 
+def type_names(proto) -> list[str]:
+    """The type names `_import_onnx_types` imports (and reserves): of the graph inputs/outputs of a ModelProto."""
+    if not isinstance(proto, onnx.ModelProto):
+        return []
+    out = set()
+    for vi in list(proto.graph.input) + list(proto.graph.output):
+        if vi.type.HasField("tensor_type"):
+            out.add(TP.DataType.Name(vi.type.tensor_type.elem_type))
+    return sorted(out)
+
+
 def enc_model(m: onnx.ModelProto, opts: dict, lits: Lits, function_name=None, depth: int = 8) -> str:
     kind = "MF" if len(m.functions) else "M"
-    toks = ["export", opts_str(opts), str(depth), kind, hx(m.graph.name), "-" if function_name is None else hx(function_name)]
+    tys = type_names(m)
+    toks = ["export", opts_str(opts), str(depth), str(len(tys)), *map(hx, tys), kind, hx(m.graph.name), "-" if function_name is None else hx(function_name)]
     toks += enc_opsets(m.opset_import)
     toks += enc_graph(m.graph, lits)
     if kind == "MF":
@@ -222,7 +234,7 @@ def _node_names(n: onnx.NodeProto, acc: set) -> None:
 
 
 def enc_function(f: onnx.FunctionProto, opts: dict, lits: Lits, used_order, depth: int = 8) -> str:
-    toks = ["export", opts_str(opts), str(depth), "F", hx(f.name), hx(f.domain)]
+    toks = ["export", opts_str(opts), str(depth), "0", "F", hx(f.name), hx(f.domain)]
     toks += [str(len(f.input)), *map(hx, f.input), str(len(f.output)), *map(hx, f.output)]
     toks += [str(len(f.attribute)), *map(hx, f.attribute)]
     toks += [str(len(used_order)), *map(hx, used_order)]
@@ -297,8 +309,10 @@ def _stmts(body, depth, lits, out):
             t = s.targets[0]
             outs = [x.id for x in t.elts] if isinstance(t, ast.Tuple) else [t.id]
             v = s.value
-            if isinstance(v, ast.Call) and isinstance(v.func, ast.Attribute) and isinstance(v.func.value, ast.Name):
-                callee = f"{v.func.value.id}.{v.func.attr}"
+            if isinstance(v, ast.Call) and (
+                (isinstance(v.func, ast.Attribute) and isinstance(v.func.value, ast.Name)) or isinstance(v.func, ast.Name)
+            ):
+                callee = f"{v.func.value.id}.{v.func.attr}" if isinstance(v.func, ast.Attribute) else v.func.id
                 args = [_arg(a, lits) for a in v.args]
                 kws = []
                 for k in v.keywords:
@@ -332,7 +346,14 @@ def _stmts(body, depth, lits, out):
                 body = body[1:]
             else:
                 out.append(f"L{depth} for {s.target.id} {n}")
-            _stmts(body, depth + 1, lits, out)
+            bl = body[-1] if body else None
+            if (isinstance(bl, ast.If) and isinstance(bl.test, ast.Name) and len(bl.body) == 1
+                    and isinstance(bl.body[0], ast.Break) and not bl.orelse):
+                # `for …: <body>; if c: break` (the form the converter accepts)
+                _stmts(body[:-1], depth + 1, lits, out)
+                out.append(f"L{depth + 1} breakif {bl.test.id}")
+            else:
+                _stmts(body, depth + 1, lits, out)
         elif isinstance(s, ast.While):
             out.append(f"L{depth} while {_arg(s.test, lits)}")
             _stmts(s.body, depth + 1, lits, out)
